@@ -364,6 +364,12 @@ func constructPublicKeyFromCert(keyCert *key_certificate.KeyCertificate, data []
 //
 // Returns concatenated padding [pubKeyPadding || sigKeyPadding] or nil if no padding.
 func extractPaddingFromData(data []byte, pubKeySize, sigKeySize int) []byte {
+	// Keys larger than their inline field (e.g. P521 or RSA signing keys) leave no
+	// padding in that field; the excess lives in the certificate, not in the block.
+	if pubKeySize < 0 || pubKeySize > KEYS_AND_CERT_PUBKEY_SIZE ||
+		sigKeySize < 0 || sigKeySize > KEYS_AND_CERT_SPK_SIZE {
+		return nil
+	}
 	paddingSize := KEYS_AND_CERT_DATA_SIZE - pubKeySize - sigKeySize
 	if paddingSize <= 0 {
 		return nil
